@@ -709,6 +709,14 @@ class Array(DaskMethodsMixin):
         from dask_array.slicing import SetItem
 
         value_expr = value.expr if isinstance(value, Array) else value
+
+        # The assignment happens now: dask arrays inside the key are captured
+        # as they are (a later in-place update of such an index array swaps
+        # that collection's expression and must not reach back into this one).
+        def freeze(k):
+            return new_collection(k.expr) if isinstance(k, Array) else k
+
+        key = tuple(freeze(k) for k in key) if isinstance(key, tuple) else freeze(key)
         y = new_collection(SetItem(self.expr, key, value_expr))
         self._replace_expr(y.expr)
 
